@@ -1222,6 +1222,12 @@ class QueryBuilder(Selectable, Term):
         # Don't return anything here. Subqueries have their own fields.
         return []
 
+    @builder
+    def _with_join(self, join: "Join") -> "QueryBuilder":
+        # the step a Joiner finishes with: like every other chaining call it works on a copy (or in place when the
+        # query was created with immutable=False), so that one Joiner can be finished more than once
+        self.do_join(join)
+
     def do_join(self, join: "Join") -> None:
         base_tables = self._from + [self._update_table] + self._with
         join.validate(base_tables, self._joins)
@@ -1696,8 +1702,7 @@ class Joiner:
                 "{type} JOIN but was not supplied.".format(type=self.type_label)
             )
 
-        self.query.do_join(JoinOn(self.item, self.how, criterion, collate))
-        return self.query
+        return self.query._with_join(JoinOn(self.item, self.how, criterion, collate))
 
     def on_field(self, *fields: Any) -> QueryBuilder:
         if not fields:
@@ -1710,21 +1715,17 @@ class Joiner:
             constituent = Field(field, table=self.query._from[0]) == Field(field, table=self.item)
             criterion = constituent if criterion is None else criterion & constituent
 
-        self.query.do_join(JoinOn(self.item, self.how, criterion))
-        return self.query
+        return self.query._with_join(JoinOn(self.item, self.how, criterion))
 
     def using(self, *fields: Any) -> QueryBuilder:
         if not fields:
             raise JoinException("Parameter 'fields' is required when joining with a using clause but was not supplied.")
 
-        self.query.do_join(JoinUsing(self.item, self.how, [Field(field) for field in fields]))
-        return self.query
+        return self.query._with_join(JoinUsing(self.item, self.how, [Field(field) for field in fields]))
 
     def cross(self) -> QueryBuilder:
         """Return cross join"""
-        self.query.do_join(Join(self.item, JoinType.cross))
-
-        return self.query
+        return self.query._with_join(Join(self.item, JoinType.cross))
 
 
 class Join:
